@@ -457,6 +457,7 @@ class Layout:
         self.features = set()
         self.v = 0
         self.defined = []       # object-like macros usable in code lines: name -> value text
+        self.funcs = []         # function-like macros F(X,Y) usable in code lines
 
     def var(self):
         self.v += 1
@@ -492,9 +493,30 @@ class Layout:
             line += " /* c */"
         return [line]
 
+    def call_lines(self):
+        """a call of a function-like macro whose argument list is spread over several lines"""
+        r = self.rng
+        self.features.add("macro-call-over-several-lines")
+        fn = r.choice(self.funcs)
+        a, b = str(r.randint(0, 99)), r.choice(["2", "5", "(3 - 1)", "([4] select 0)"])
+        ind = r.choice(["", "  ", "\t"])
+        shape = r.randrange(5)
+        head = "%s = %s(" % (self.var(), fn)
+        if shape == 0:
+            return [head + a + ",", ind + b + ");"]
+        if shape == 1:
+            return [head, ind + a + ",", ind + b, ind + ");"]
+        if shape == 2:
+            return [head + a, ind + ",", ind + b + ");"]
+        if shape == 3:
+            return [head, ind + a + ", " + b + ");"]
+        return [head + a + ",", "", ind + b, ");"]
+
     def element(self, depth, inc_depth, names):
         r = self.rng
         k = r.random()
+        if k < 0.08 and self.funcs:
+            return self.call_lines()
         if k < 0.3:
             return self.code_line()
         if k < 0.4:
@@ -512,7 +534,10 @@ class Layout:
             if r.random() < 0.6:
                 self.defined.append(n)
                 return ["#define %s %d" % (n, r.randint(0, 9))]
-            return ["#define F%d(X,Y) (X + Y)" % r.randint(0, 9)]
+            fn = "F%d" % r.randint(0, 9)
+            if fn not in self.funcs:
+                self.funcs.append(fn)
+            return ["#define %s(X,Y) (X + Y)" % fn]
         if k < 0.7:
             self.features.add("multi-line-define")
             kk = r.randint(2, 5)
@@ -526,7 +551,7 @@ class Layout:
             active = r.random() < 0.5
             self.features.add("active-branch" if active else "inactive-branch")
             head = ("#ifndef NOT_DEFINED_%d" if active else "#ifdef NOT_DEFINED_%d") % r.randint(0, 9)
-            saved = list(self.defined)
+            saved, savedf = list(self.defined), list(self.funcs)
             inner = []
             for _ in range(r.randint(0, 3)):
                 if active:
@@ -535,18 +560,18 @@ class Layout:
                     inner += [r.choice(["garbage ) ( +", "x = 1 + \"a\";", "#define LEAK 1", "#include \"/v/none.sqf\"", "\"str #endif\"", "", "/* c */ y"])]
             out = [head] + inner
             if not active:
-                self.defined = saved
+                self.defined, self.funcs = saved, savedf
             if r.random() < 0.4:
                 self.features.add("else-branch")
                 out.append("#else")
-                saved = list(self.defined)
+                saved, savedf = list(self.defined), list(self.funcs)
                 for _ in range(r.randint(0, 2)):
                     if not active:
                         out += self.element(depth + 1, inc_depth, names)
                     else:
                         out += [r.choice(["garbage ] [", "z = ;", "#define LEAK2 1"])]
                 if active:
-                    self.defined = saved
+                    self.defined, self.funcs = saved, savedf
             out.append("#endif")
             return out
         if k < 0.9 and names and inc_depth < 3:
